@@ -21,6 +21,8 @@ def run(ctx):
     storage.offset_provenance(ctx, s)
     storage.growth_monotone(ctx, s)
     storage.read_bound_by_marker(ctx, s)
+    storage.delineate_minimum(ctx, s)
+    storage.recorded_length_is_file_length(ctx, s)
     storage.reopen_validates_marker(ctx, s)
     storage.append_index_commit_order(ctx, s, "pocket_db::Store::store_event")
     txn.effects_use_callers_txn(ctx, s, "pocket_db::Store::store_event")
